@@ -86,4 +86,7 @@ coqc_ CasesConcUnite
 python3 "$HERE/validate/gen_conc_v1prio_cases.py" "$WORK/coq/theories/CasesConcV1Prio.v"
 coqc_ CasesConcV1Prio
 /usr/bin/time -f "ValConcV1Prio.v: %es" bash -c "cd '$WORK/coq' && timeout 3600 coqc -Q theories Cqos theories/ValConcV1Prio.v"
+python3 "$HERE/validate/gen_conc_joinv1_cases.py" "$WORK/coq/theories/CasesConcJoinV1.v"
+coqc_ CasesConcJoinV1
+/usr/bin/time -f "ValConcJoinV1.v: %es" bash -c "cd '$WORK/coq' && timeout 3600 coqc -Q theories Cqos theories/ValConcJoinV1.v"
 echo "== validation passed"
